@@ -85,6 +85,10 @@ class Machine:
             return (b, p + ["*"])
         if s.startswith("(") and s.endswith(")"):
             inner = s[1:-1]
+            md = re.fullmatch(r"(.*) as (\w+)", inner)
+            if md and not re.search(r"\.\d+: [^()]*$", inner):
+                b, p = self.place(fr, md.group(1))
+                return (b, p + [md.group(2)])          # enum downcast: variants are keyed by name
             depth = 0
             for i, ch in enumerate(inner):
                 if ch == "(":
